@@ -649,6 +649,8 @@ def run(repo, rep):
     _memo_rule(repo, rep, 'C06', 'C06.Z1')
     from ..pitfalls import log_rule as _log_rule
     _log_rule(repo, rep, 'C06', 'C06.Z2')
+    from ..api_pitfalls import truth_rule as _truth_rule
+    _truth_rule(repo, rep, 'C06', 'C06.Z4')
     dm = repo.module('dimsemessages')
     hier = exc_hierarchy(repo)
     k_pdv, lx = overhead(repo)
